@@ -24,9 +24,17 @@ class Lower:
         self.tid = {t: i for t, (i, _) in ids.items()}
         self.cid = {t: c for t, (_, c) in ids.items()}
 
+    def bind_alias(self, alias, table):
+        """Occurrences of a table are numbered in FROM order; the binder prints later ones as "$t.c(k)"."""
+        k = sum(1 for t, _ in self.alias.values() if t == table)
+        self.alias[alias] = (table, k)
+
+    def colkey(self, t, occ, j):
+        return '$%d.%d' % (self.tid[t], j) if not occ else '"$%d.%d(%d)"' % (self.tid[t], j, occ)
+
     def col(self, e):
-        t = self.alias.get(e[1], e[1])
-        return '$%d.%d' % (self.tid[t], self.cid[t][e[2]])
+        t, occ = self.alias.get(e[1], (e[1], 0))
+        return self.colkey(t, occ, self.cid[t][e[2]])
 
     def expr(self, e):
         k = e[0]
@@ -69,14 +77,14 @@ class Lower:
             return [{'count': 'count', 'sum': 'sum', 'min': 'min', 'max': 'max', 'countd': 'count-distinct'}[f], self.expr(a)]
         raise NotEncodable('ast ' + k)
 
-    def scan(self, t):
+    def scan(self, t, occ=0):
         i = self.tid[t]
-        return ['scan', '$%d' % i, ['list'] + ['$%d.%d' % (i, j) for j in sorted(self.cid[t].values())], 'true']
+        return ['scan', '$%d' % i, ['list'] + [self.colkey(t, occ, j) for j in sorted(self.cid[t].values())], 'true']
 
     def subquery(self, sq):
         f = sq['from'][0]
-        self.alias[f[2]] = f[1]
-        p = self.scan(f[1])
+        self.bind_alias(f[2], f[1])
+        p = self.scan(f[1], self.alias[f[2]][1])
         if sq.get('where') is not None:
             p = ['filter', self.expr(sq['where']), p]
         return ['proj', ['list'] + [self.expr(x) for x in sq['select']], p]
@@ -85,8 +93,8 @@ class Lower:
         q = self.q
         p = None
         for i, f in enumerate(q['from']):
-            self.alias[f[2]] = f[1]
-            s = self.scan(f[1])
+            self.bind_alias(f[2], f[1])
+            s = self.scan(f[1], self.alias[f[2]][1])
             if i == 0:
                 p = s
             elif f[0] == 'cross':
@@ -310,6 +318,18 @@ def family():
         out.append({'sql': corpus.q_sql(q2), 'ast': q2})
     for p in preds:
         q = {'from': [('table', 'u', 'u')], 'where': p, 'select': [x, y], 'group': None, 'having': None, 'distinct': False, 'order': None, 'limit': None, 'offset': None}
+        out.append({'sql': corpus.q_sql(q), 'ast': q})
+    # self-joins: two occurrences of one table under different aliases
+    for t, c0, c1 in (('u', 'x', 'y'), ('t', 'b', 'c')):
+        a = lambda c: ('col', 'a1', c, 'I')
+        b = lambda c: ('col', 'a2', c, 'I')
+        for jt in ('inner', 'left', 'right', 'full'):
+            for on in (('=', a(c0), b(c1)), ('and', ('=', a(c0), b(c0)), ('<', a(c1), b(c1)))):
+                for sel, where in (([a(c0), b(c1)], None), ([a(c1), b(c1), a(c0)], ('>', b(c0), L(0))), ([b(c0)], ('isnull', a(c1)))):
+                    q = {'from': [('table', t, 'a1'), (jt, t, 'a2', on)], 'where': where, 'select': sel, 'group': None, 'having': None, 'distinct': False, 'order': None, 'limit': None, 'offset': None}
+                    out.append({'sql': corpus.q_sql(q), 'ast': q})
+        q = {'from': [('table', t, 'a1'), ('inner', t, 'a2', ('=', a(c0), b(c0)))], 'where': None, 'select': [a(c0), ('agg', 'count*', None), ('agg', 'sum', b(c1))], 'group': [a(c0)], 'having': None,
+             'distinct': False, 'order': [(a(c0), False)], 'limit': None, 'offset': None}
         out.append({'sql': corpus.q_sql(q), 'ast': q})
     seen, uniq = set(), []
     for g in out:
